@@ -97,6 +97,9 @@ def evaluate(name: str, record: bool, tier: str, workers: int) -> dict:
         if SUITE[0]:
             suite = run_suite(wt)
             res["suite"] = suite
+            if meta.get("mutant") and "no longer passing 0" not in suite:
+                res.update(clean=clean, patched=patched, check=[], detected=True, concrete=True, rc=-1, wall=round(time.time() - t0, 1), killed_by_suite=True)
+                return res
         cenv = dict(os.environ, VERIF_REPO=wt, VERIF_LEAN_DIR=lean, VERIF_OUT=out, VERIF_WORKERS=str(workers))
         k = sh([os.path.join(VERIF, "check"), prop, "--tier", tier], env=cenv, timeout=3600)
         outl = [ln for ln in k.stdout.split("\n") if ln and not ln.startswith("KNOWN")]
@@ -185,7 +188,7 @@ def main() -> int:
                 print(f"{r['name']}: ERROR {r['error']}", flush=True)
                 bad += 1
                 continue
-            status = "concrete replay" if r["concrete"] else ("broken obligation only" if r["detected"] else "MISSED")
+            status = "killed by the pinned suite" if r.get("killed_by_suite") else "concrete replay" if r["concrete"] else ("broken obligation only" if r["detected"] else "MISSED")
             demo_ok = r["clean"].upper().startswith("PASS") or "PASS" in r["clean"].upper()
             flag = "" if (demo_ok and "FAIL" in r["patched"].upper()) else f"  [demo clean={r['clean']!r} patched={r['patched']!r}]"
             print(f"{r['name']} ({r['prop']}): {status}; rc={r['rc']}; {r['wall']}s{flag}" + (f"  suite: {r['suite']}" if r.get("suite") else ""), flush=True)
